@@ -187,7 +187,7 @@ package shellfuncsfile
 //@   on call strings.TrimSpace(x) (y): assert(x == rawPerl && nTrim == 0, "surrounding_whitespace_trimmed"); trimmed = y; nTrim++
 //@   on call strings.Split(x, sep) (y): assert(nTrim == 1 && x == trimmed && sep == "\n" && nSplit == 0, "split_into_lines"); allLines = y; nSplit++
 //@   before "break LOOP": nBlank = i; brk = true
-//@   on call strings.Join(x, sep) (y): assert(sep == "\n" && nJoin < 2, "joined_with_newlines"); if nJoin == 1 { if !brk { nBlank = len(lines) }; assert(x == allLines, "every_line_of_the_trimmed_script_is_kept"); assert(x == lines && 0 <= nBlank && nBlank <= len(lines) && forall(j, 0 <= j && j < nBlank, (lines[j] == "" && strings.HasPrefix(pre("3", lines[j]), "#")) || (lines[j] == "\n" && pre("3", lines[j]) == "\n")) && forall(j, nBlank <= j && j < len(lines), lines[j] == pre("3", lines[j])) && (nBlank == len(lines) || (!strings.HasPrefix(pre("3", lines[nBlank]), "#") && pre("3", lines[nBlank]) != "\n")), "leading_comment_run_blanked_everything_else_untouched") }; nJoin++
+//@   on call strings.Join(x, sep) (y): assert(sep == "\n" && nJoin < 2, "joined_with_newlines"); if sameArray(x, allLines) { if !brk { nBlank = len(lines) }; assert(x == allLines, "every_line_of_the_trimmed_script_is_kept"); assert(x == lines && 0 <= nBlank && nBlank <= len(lines) && forall(j, 0 <= j && j < nBlank, (lines[j] == "" && strings.HasPrefix(pre("3", lines[j]), "#")) || (lines[j] == "\n" && pre("3", lines[j]) == "\n")) && forall(j, nBlank <= j && j < len(lines), lines[j] == pre("3", lines[j])) && (nBlank == len(lines) || (!strings.HasPrefix(pre("3", lines[nBlank]), "#") && pre("3", lines[nBlank]) != "\n")), "leading_comment_run_blanked_everything_else_untouched") }; nJoin++
 //@   loop 1 counter k
 //@     invariant own_array: !sameArray(leadCommentLines, lines)
 //@     invariant run_so_far: len(leadCommentLines) == k && k <= len(lines) && forall(j, 0 <= j && j < k, leadCommentLines[j] == lines[j] && strings.HasPrefix(lines[j], "#")) && nJoin == 0 && nTrim == 1 && nSplit == 1
